@@ -80,16 +80,24 @@ func stream(s cipher.Stream, src []byte) []byte {
 	return dst
 }
 
+// firstDiff is the index of the first differing byte, or -1.
+func firstDiff(a, b []byte) int {
+	for i := 0; i < len(a) && i < len(b); i++ {
+		if a[i] != b[i] {
+			return i
+		}
+	}
+	if len(a) != len(b) {
+		return min(len(a), len(b))
+	}
+	return -1
+}
+
 func diff(t *testing.T, what string, n int, model, lib []byte) {
 	t.Helper()
-	if bytes.Equal(model, lib) {
-		return
+	if i := firstDiff(model, lib); i >= 0 {
+		t.Errorf("DISAGREE %s len=%d (first differing byte %d)\n  model %x\n  lib   %x", what, n, i, model, lib)
 	}
-	i := 0
-	for i < len(model) && i < len(lib) && model[i] == lib[i] {
-		i++
-	}
-	t.Errorf("DISAGREE %s len=%d (first differing byte %d)\n  model %x\n  lib   %x", what, n, i, model, lib)
 }
 
 // ---------------------------------------------------------------- block modes
@@ -172,12 +180,21 @@ func TestStreamModesVsLibrary(t *testing.T) {
 // decryption is known to take the process down on amd64.
 func xtsDecryptCrashes(n int) bool { return n >= 64 && n%64 >= 1 && n%64 <= 15 }
 
+// gbDecDeviates reports the lengths at which the library's SM4 GB-XTS
+// *decryption* (AVX2 assembly, /repo/internal/sm4/xts_amd64.s decryptSm4XtsGB)
+// is observed to return wrong plaintext: after a 4-block batch the
+// block-at-a-time loop avx2XtsSm4DecSingles doubles the tweak with the IEEE
+// macro (avxMul2Inline) instead of the GB one (avxMul2GBInline). The loop only
+// runs when at least 32 bytes remain after the batch, so everything from byte
+// 128*(n/128)+80 on is wrong when n mod 128 is in 96..127.
+func gbDecDeviates(n int) bool { return n%128 >= 96 }
+
 type xtsCase struct {
-	gb                   bool
-	key1, key2, tweak    []byte
-	sector               uint64
-	useSector            bool
-	newCipher            func([]byte) (cipher.Block, error)
+	gb                bool
+	key1, key2, tweak []byte
+	sector            uint64
+	useSector         bool
+	newCipher         func([]byte) (cipher.Block, error)
 }
 
 func (c xtsCase) String() string {
@@ -228,6 +245,7 @@ func (c xtsCase) lib(decrypt bool) cipher.BlockMode {
 func TestXTSVsLibrary(t *testing.T) {
 	rng := rand.New(rand.NewSource(3))
 	skipped := 0
+	var gbDecBad []int
 	for _, lc := range libCiphers {
 		for n := 16; n <= maxLen; n++ {
 			for variant := 0; variant < 4; variant++ {
@@ -246,11 +264,30 @@ func TestXTSVsLibrary(t *testing.T) {
 					skipped++ // covered by TestXTSDecryptCrashLengths in a subprocess
 					continue
 				}
-				diff(t, name+" dec", n, XTSDecrypt(b1, b2, c.plainTweak(), src, c.gb), blockMode(c.lib(true), src))
+				mdec, ldec := XTSDecrypt(b1, b2, c.plainTweak(), src, c.gb), blockMode(c.lib(true), src)
+				if lc.name == "lib-sm4" && c.gb && gbDecDeviates(n) && !bytes.Equal(mdec, ldec) {
+					// Library defect, see gbDecDeviates. Pin it down exactly, and
+					// show it without the model: the library cannot decrypt
+					// its own ciphertext.
+					if at, want := firstDiff(mdec, ldec), n-n%128+80; at != want {
+						t.Errorf("%s dec len=%d: deviation starts at byte %d, expected %d", name, n, at, want)
+					}
+					if bytes.Equal(blockMode(c.lib(true), blockMode(c.lib(false), src)), src) {
+						t.Errorf("%s len=%d: library round trip unexpectedly works", name, n)
+					}
+					if variant == 1 {
+						gbDecBad = append(gbDecBad, n)
+					}
+					continue
+				}
+				diff(t, name+" dec", n, mdec, ldec)
 			}
 		}
 	}
 	t.Logf("skipped %d in-process lib-sm4 XTS decrypt checks at crash-prone lengths", skipped)
+	if len(gbDecBad) > 0 {
+		known(t, "lib-sm4 GB-XTS decrypt returns wrong plaintext (and fails its own round trip) at lengths %v", gbDecBad)
+	}
 }
 
 // Several block-aligned CryptBlocks calls on one library object continue the
@@ -264,13 +301,19 @@ func TestXTSMultiCallVsLibrary(t *testing.T) {
 			T := XTSInitialTweak(b2, c.tweak)
 			enc, dec := c.lib(false), c.lib(true)
 			blocksDone := 0
+			decOff := false // library decrypter state is off after hitting gbDecDeviates
 			for call := 0; call < 4; call++ {
 				nb := 1 + rng.Intn(9)
 				src := rnd(rng, 16*nb)
 				run := XTSTweakAfter(T, blocksDone, c.gb)
 				name := fmt.Sprintf("%s %s multi-call #%d after %d blocks", lc.name, c, call, blocksDone)
 				diff(t, name+" enc", len(src), XTSEncryptFrom(b1, run, src, c.gb), blockMode(enc, src))
-				diff(t, name+" dec", len(src), XTSDecryptFrom(b1, run, src, c.gb), blockMode(dec, src))
+				if lc.name == "lib-sm4" && c.gb && gbDecDeviates(len(src)) {
+					decOff = true
+				}
+				if !decOff {
+					diff(t, name+" dec", len(src), XTSDecryptFrom(b1, run, src, c.gb), blockMode(dec, src))
+				}
 				blocksDone += nb
 			}
 		}
@@ -289,7 +332,7 @@ func TestXTSDecryptChild(t *testing.T) {
 		t.Fatal(err)
 	}
 	rng := rand.New(rand.NewSource(int64(n)))
-	for _, gb := range []bool{false, true} {
+	for _, gb := range []bool{os.Getenv("MODES_XTS_CHILD_GB") != ""} {
 		c := xtsCase{gb: gb, key1: rnd(rng, 16), key2: rnd(rng, 16), tweak: rnd(rng, 16), newCipher: sm4.NewCipher}
 		src := rnd(rng, n)
 		want := XTSDecrypt(modelSM4(c.key1), modelSM4(c.key2), c.tweak, src, gb)
@@ -303,9 +346,12 @@ func TestXTSDecryptChild(t *testing.T) {
 	}
 }
 
-func runXTSDecryptChild(n int) (out string, crashed bool) {
+func runXTSDecryptChild(n int, gb bool) (out string, crashed bool) {
 	cmd := exec.Command(os.Args[0], "-test.run=^TestXTSDecryptChild$", "-test.v")
 	cmd.Env = append(os.Environ(), "MODES_XTS_CHILD_LEN="+strconv.Itoa(n))
+	if gb {
+		cmd.Env = append(cmd.Env, "MODES_XTS_CHILD_GB=1")
+	}
 	b, err := cmd.CombinedOutput()
 	return string(b), err != nil
 }
@@ -313,34 +359,33 @@ func runXTSDecryptChild(n int) (out string, crashed bool) {
 // The library's SM4 XTS decryption at the crash-prone lengths, each in its own
 // subprocess so that a SIGSEGV does not take this test binary down.
 func TestXTSDecryptCrashLengths(t *testing.T) {
-	var crashed, disagreed, agreed []int
-	for n := 16; n <= maxLen; n++ {
-		if !xtsDecryptCrashes(n) {
-			continue
-		}
-		out, crash := runXTSDecryptChild(n)
-		switch {
-		case crash && !strings.Contains(out, "CHILD DISAGREE"):
-			crashed = append(crashed, n)
-			if len(crashed) == 1 {
-				first := out
-				if len(first) > 1500 {
-					first = first[:1500]
-				}
-				t.Logf("first crash (len=%d) output:\n%s", n, first)
+	if testing.Short() {
+		t.Skip("spawns one subprocess per length")
+	}
+	for _, gb := range []bool{false, true} {
+		var crashed, agreed []int
+		for n := 16; n <= maxLen; n++ {
+			if !xtsDecryptCrashes(n) {
+				continue
 			}
-		case strings.Contains(out, "CHILD DISAGREE"):
-			disagreed = append(disagreed, n)
-			t.Errorf("DISAGREE lib-sm4 XTS dec len=%d:\n%s", n, out)
-		default:
-			agreed = append(agreed, n)
+			out, died := runXTSDecryptChild(n, gb)
+			switch {
+			case strings.Contains(out, "CHILD DISAGREE"):
+				t.Errorf("DISAGREE lib-sm4 XTS dec gb=%v len=%d:\n%s", gb, n, out)
+			case died || !strings.Contains(out, "CHILD agree"):
+				if len(crashed) == 0 {
+					t.Logf("first crash (gb=%v len=%d) output:\n%s", gb, n, out[:min(len(out), 600)])
+				}
+				crashed = append(crashed, n)
+			default:
+				agreed = append(agreed, n)
+			}
+		}
+		t.Logf("lib-sm4 XTS decrypt gb=%v in subprocesses: survived and agreed at %v", gb, agreed)
+		if len(crashed) > 0 {
+			known(t, "lib-sm4 XTS decrypt gb=%v killed its process at lengths %v", gb, crashed)
 		}
 	}
-	t.Logf("lib-sm4 XTS decrypt in subprocess: agreed at %v", agreed)
-	if len(crashed) > 0 {
-		known(t, "lib-sm4 XTS decrypt crashed the process at lengths %v", crashed)
-	}
-	_ = disagreed
 }
 
 // ---------------------------------------------------------------- HCTR
